@@ -455,3 +455,42 @@ func (f *fixture) evictions(pi int) ttrpc.UnaryServerInterceptor {
 		return resp, err
 	}
 }
+
+// fixtureDamaged tells whether a fixture has lost one of its plugins: an in-process plugin's
+// stub reported a closed connection, or a probe request no longer reaches every pool plugin.
+// A damaged fixture is discarded.
+func fixtureDamaged(n int) string {
+	fixMu.Lock()
+	f := fixtures[n]
+	fixMu.Unlock()
+	if f == nil {
+		return "the fixture was already discarded"
+	}
+	why := ""
+	for pi, p := range f.plugins {
+		if p != nil && p.Closed.Load() > 0 {
+			why = fmt.Sprintf("pool plugin %d lost its connection", pi)
+		}
+	}
+	if why == "" {
+		ex := &execution{fixture: n, c: Case{Kind: "create"}, id: ids{self: fmt.Sprintf("intact-probe-%d-%d", n, idCtr.Add(1)), tgt: map[string]string{}},
+			seenCtr: map[int]*api.Container{}, seenRes: map[int]*api.LinuxResources{}, seenPod: map[int]*api.PodSandbox{}}
+		ex.pod = &api.PodSandbox{Id: "p", Annotations: map[string]string{}}
+		f.brief(ex)
+		f.execs.Store(ex.id.self, ex)
+		_, err := f.rt.A.CreateContainer(context.Background(), &api.CreateContainerRequest{Pod: ex.pod, Container: &api.Container{Id: ex.id.self}})
+		f.execs.Delete(ex.id.self)
+		f.collect(ex)
+		seen := map[int]bool{}
+		for _, pi := range ex.invoked {
+			seen[pi] = true
+		}
+		if err != nil || len(seen) != poolSize {
+			why = fmt.Sprintf("a probe request reached only plugins %v (err %v)", ex.invoked, err)
+		}
+	}
+	if why != "" {
+		dropFixture(n, f)
+	}
+	return why
+}
